@@ -252,7 +252,42 @@ def _clip(ctx, rule, tu, F, fn, tag, left_pat, right_pat):
         len(re.findall(r"left", src[id(mx[0][2])].split("=", 1)[1])) == 2 and "right" not in src[id(mx[0][2])].split("=", 1)[1]
     okr = len(mn) == 1 and re.search(r"TSK_MIN\(", src[id(mn[0][2])]) and re.search(right_pat, src[id(mn[0][2])]) and \
         len(re.findall(r"right", src[id(mn[0][2])].split("=", 1)[1])) == 2 and "left" not in src[id(mn[0][2])].split("=", 1)[1]
+    # each intersection is computed afresh from the two segments: the result must not be one of its own operands (clipping the
+    # edge's own `left` / `right` in the loop narrows the edge cumulatively across the child's segments)
+    for lst in (mx, mn):
+        for l, r, nd in lst:
+            ops = [t.strip() for t in re.sub(r"^.*?TSK_M(AX|IN)\(", "", src[id(nd)]).rstrip(") ;").split(",")]
+            ctx.ob(rule, "%s|clip-fresh|%s" % (tag, l), l not in ops, tu.loc(nd),
+                   "`%s` is a fresh value per pair of segments" % l if l not in ops else
+                   "`%s` overwrites one of its own operands inside the loop: the interval shrinks cumulatively" % src[id(nd)])
     ctx.ob(rule, "%s|clip-left" % tag, bool(okl), tu.loc(mx[0][2]) if mx else tu.loc(fn.node),
            "left end of the intersection = TSK_MAX of the two lefts: %s" % (src[id(mx[0][2])] if mx else "not found"))
     ctx.ob(rule, "%s|clip-right" % tag, bool(okr), tu.loc(mn[0][2]) if mn else tu.loc(fn.node),
            "right end of the intersection = TSK_MIN of the two rights: %s" % (src[id(mn[0][2])] if mn else "not found"))
+
+
+def pair_keys(ctx, P, rule="IBD-KEY"):
+    ctx.rule(rule, "the key of a sample pair does not depend on the order in which the two ids are given: either pair_to_integer "
+                   "itself orders its arguments (`if (a > b) swap`), or EVERY call site passes (TSK_MIN(a, b), TSK_MAX(a, b)) – the "
+                   "store path (update_pair) and the lookup path (get_key) included")
+    tu = P.tus["tables"]
+    fn = P.need("pair_to_integer", "tables")
+    swaps = [x for x in walk(fn.body) if x.k == "IfStmt" and re.fullmatch(r"\(?\w+ > \w+\)?", estr(x.kids[0]))
+             and sum(1 for y in walk(x.kids[1]) if is_assign(y)) >= 2]
+    sites = []
+    for g in tu.funcs.values():
+        for c in calls(g.body):
+            if callee(c) == "pair_to_integer":
+                sites.append((g, c))
+    ctx.need(len(sites) >= 2, "pair_to_integer call sites (store and lookup)")
+    if swaps:
+        ctx.ob(rule, "normalised-in-callee", True, tu.loc(swaps[0]), "pair_to_integer swaps its arguments when a > b")
+        for g, c in sites:
+            ctx.ob(rule, "site|%s" % g.name, True, tu.loc(c), "callee orders the pair")
+        return
+    for g, c in sites:
+        a = [" ".join(tu.src(x).split()) for x in c.kids[1:3]]
+        ok = a[0].startswith("TSK_MIN(") and a[1].startswith("TSK_MAX(") and a[0][8:] == a[1][8:]
+        ctx.ob(rule, "site|%s" % g.name, ok, tu.loc(c),
+               "passes (%s, %s)" % (a[0], a[1]) if ok else
+               "pair_to_integer no longer orders its arguments and %s passes (%s, %s) as given: a pair asked for in the other order gets a different key" % (g.name, a[0], a[1]))
